@@ -12,6 +12,7 @@ from common import f2h, h2f
 import gen_comp
 import extract_comp as X
 import c01
+import c03_grow
 
 from autofit import exc
 from autofit.mapper.prior.abstract import Prior
@@ -308,6 +309,9 @@ def one_case(ctx, prog, vecs=None, label="gen"):
                 if d and not c01.arith_domain(impl["ok"], m_out["ok"]):
                     ctx.disagree("C03.instance", case, {"diff_at": d[0], "impl": d[1]}, {"model": d[2]})
 
+            # --- the gate computed in Lean from the assertion-carrying composition (tree, trace) - c03_grow.py
+            c03_grow.comp_clause_sampled(ctx, model, comp, lims, atree, v, ignore, case, loose)
+
             # --- oracle: the property sentence
             args = {p: x for p, x in zip(priors, v)}
             lim_ok = all(p.lower_limit <= x <= p.upper_limit for p, x in zip(priors, v))
@@ -336,6 +340,10 @@ def one_case(ctx, prog, vecs=None, label="gen"):
     # only the first (the values are carried over path by path)
     if prog_asserts and priors and rng.random() < 0.5:
         reloaded_gate(ctx, prog, H, model, prog_asserts, todo, label)
+    # routes and flags, operator-built assertions (Lean gateRoute / cmpOpnd, chainOpnd, reflOpnd) - c03_grow.py
+    if vecs is None or label.startswith("route"):
+        c03_grow.route_clause(ctx, model, comp, lims, priors, prog, prog_asserts, H, todo, eval_assert_plain, loose)
+        c03_grow.build_clause(ctx, model, comp, priors, prog, H, todo[0][1], gen_comp.CMP)
 
     # unit route and random_instance: whatever comes back must satisfy every limit and assertion
     if priors:
@@ -408,6 +416,8 @@ def run(ctx):
     for _ in range(ctx.n(240, 2500)):
         prog = gen_comp.gen_program(ctx.rng, allow_pow=False)
         prog = add_assertions(ctx.rng, prog)
+        if ctx.rng.random() < 0.5:
+            prog = c03_grow.grow_program(ctx.rng, prog, gen_comp.run_program)
         one_case(ctx, prog)
 
 
